@@ -70,6 +70,7 @@ def run(ctx):
                     continue
                 k += 1
                 quoted = prev.endswith(b"'")
+                prev_full = prev
                 prev = b""
                 if k >= len(arg_ops):
                     r2.fail("template-args", "cannot pair placeholders with arguments")
@@ -84,6 +85,32 @@ def run(ctx):
                             if re.search(r"(IntoIter|Iter|IterMut).*::next$|HashMap::.*get$|Iterator::next$", o.call.name):
                                 raw = True
                 if quoted:
+                    # which characters are escaped on the way: follow the chain of str::replace calls
+                    escaped = {}
+                    todo, seen_c = list(disp), set()
+                    while todo:
+                        dc = todo.pop()
+                        for o in origins(sc, dc.args[0]):
+                            if o.kind == "call" and o.call.block not in seen_c:
+                                seen_c.add(o.call.block)
+                                if re.search(r"str::<impl str>::replace$|str>::replacen?$", o.call.name):
+                                    pat = const_int(o.call.args[1])
+                                    pat = chr(pat) if isinstance(pat, int) and 0 < pat < 0x110000 else (arg_strs(sc, o.call) or [None])[0]
+                                    rep = [x for x in arg_strs(sc, o.call) if x != pat]
+                                    for oo in origins(sc, o.call.args[2]):
+                                        if oo.kind == "const" and isinstance(oo.what, str):
+                                            rep.append(oo.what)
+                                    escaped[pat] = rep[0] if rep else None
+                                    todo.append(o.call)
+                    estring = prev_full.upper().endswith(b"E'")
+                    if estring:
+                        okq = escaped.get("'") in ("''", "\\'") and escaped.get("\\") == "\\\\"
+                        r2.check(okq, "escape-string-constant#%d" % k, "E'...' constant with backslash and quote escaped (%s)" % sorted(escaped.items(), key=str),
+                                 "the value is placed in an E'...' constant without escaping both the backslash and the quote (escaped: %s)" % sorted(escaped.items(), key=str), fc.where())
+                    else:
+                        r2.check(False, "escape-string-constant#%d" % k, "",
+                                 "the client-supplied value is placed in a plain '...' constant: how the server reads a backslash there depends on the session's standard_conforming_strings, one of the very parameters pgcat "
+                                 "tracks and sets per client - on a connection left with `off` a value like `x\\'; SET statement_timeout TO 1; --` ends the constant early and its tail runs as SQL for the next clients", fc.where())
                     r2.check(not raw and bool(src_calls), "quoted-placeholder#%d" % k, "the value inside '...' passes through %s before being formatted" % sorted(x.split("::")[-1] for x in src_calls),
                              "a tracked parameter value flows straight from the parameter map into `SET .. TO '<value>'`: a value containing a quote (application_name = O'Reilly) yields a syntax error that query() swallows, and the server keeps the previous client's value", fc.where())
                 else:
